@@ -38,6 +38,7 @@ def rotation(ctx):
     from eqsig.multiple import combine_at_angle, compute_rotated
     rng = ctx.rng
     n_cases = 200 if ctx.tier == 'quick' else 2000
+    hv_th = gen.hint_values(ctx, -720.0, 1080.0, cap=24, maps=(lambda c: c, lambda c: math.degrees(c)))     # source hints: angles (degrees, or given in radians) at / around every new float constant
     for i in range(n_cases):
         exact = i % 3 == 0
         n = gen.log_int(rng, 1, 64 if exact else (300 if ctx.tier == 'quick' else 3000))
@@ -49,7 +50,7 @@ def rotation(ctx):
         ctx.count_case(('rot', ns.tobytes(), we.tobytes(), dt), nontriv([ns, we]),
                        sample={'fn': 'combine_at_angle/compute_rotated', 'n': n, 'dt': dt} if i < 2 else None)
         scale = max(float(np.max(np.abs(ns))), float(np.max(np.abs(we))), 1e-300)
-        for theta in [0, 90, 180, 270, -90, 360, rng.uniform(-400, 800), rng.choice([30, 45, 60, 123.5])]:
+        for theta in [0, 90, 180, 270, -90, 360, rng.uniform(-400, 800), rng.choice([30, 45, 60, 123.5])] + (rng.sample(hv_th, min(3, len(hv_th))) if hv_th else []):
             inputs = {'ns': ns, 'we': we, 'dt': dt, 'angle': theta}
             res = call_impl(combine_at_angle, a_ns, a_we, theta)
             if res[0] != 'ok':
@@ -245,7 +246,8 @@ def time_match(ctx):
                         tm_case(ctx, sigs, master, steps, 'shifted', want)
         ctx.flush()
     # LONG records (the lag search and the rebuilt slave have no length limit)
-    for n, steps, L in ([(5003, 3, 2), (7000, 2, -1)] if ctx.tier == 'quick' else [(5003, 3, 2), (7000, 2, -1), (5001, 5, -4), (12000, 3, 1), (20000, 2, 1)]):
+    for n, steps, L in ([(5003, 3, 2), (7000, 2, -1)] if ctx.tier == 'quick' else [(5003, 3, 2), (7000, 2, -1), (5001, 5, -4), (12000, 3, 1), (20000, 2, 1)]) + \
+            [(m, 2, 1) for m in gen.hint_sizes(ctx, lo=301, hi=30000, cap=3)]:          # source hints: record lengths around every new integer constant
         base = [rng.randint(-9, 9) for _ in range(n)]
         tm_case(ctx, [base, shifted(rng, base, L)], 0, steps, 'long', {1: L})
         tm_case(ctx, [shifted(rng, base, L), base, shifted(rng, base, -L)], 1, steps, 'long', {0: L, 2: -L})
@@ -540,12 +542,13 @@ def _x2_large(ctx, cur):
     from eqsig.multiple import combine_at_angle, compute_rotated
     from _hxb_common import same, val, light_history
     rng = ctx.rng
-    for n in ([rng.choice([20000, 32768, 32769]), rng.choice([50000, 65536, 70001])] if ctx.tier == 'quick' else [20000, 32768, 32769, 50000, 65536, 65537, 100000]):
+    for n in ([rng.choice([20000, 32768, 32769]), rng.choice([50000, 65536, 70001])] if ctx.tier == 'quick' else [20000, 32768, 32769, 50000, 65536, 65537, 100000]) + \
+            gen.hint_sizes(ctx, lo=4100, hi=1000000, cap=6):         # source hints: record lengths (>= 20.5 s at every step used here: the sections below) around every new integer constant, angles around every new float constant
         seed = rng.randrange(2 ** 31)
         g = np.random.default_rng(seed)
         dt = rng.choice([0.01, 0.005, 0.02])
         ns, we = g.standard_normal(n), g.standard_normal(n) * 3.0
-        theta = rng.choice([33.0, 123.5, -77.25, 301.0])
+        theta = rng.choice([33.0, 123.5, -77.25, 301.0] + gen.hint_values(ctx, -720.0, 1080.0, cap=12, maps=(lambda c: c, lambda c: math.degrees(c))))
         desc = {'generator': 'c18._x2_large: ns = standard_normal(n), we = 3 standard_normal(n)', 'n': n, 'numpy_seed': seed, 'dt': dt, 'angle': theta}
         cur.clear()
         cur.update(desc)
